@@ -597,6 +597,30 @@ def repeated_var(t):
     return go(t)
 
 
+def count_vars(t, acc):
+    if t[0] == 'v':
+        acc[t[1]] = acc.get(t[1], 0) + 1
+    elif t[0] == 'c':
+        for a in t[2]:
+            count_vars(a, acc)
+    return acc
+
+
+def call_var_faces_shared_head_var(call, head):
+    """A variable that occurs at least twice in the call stands, at one of its occurrences, opposite a compound subterm
+    of the clause head that contains a head variable occurring at least twice in the head.  (unify_call_head then records
+    the binding of that head variable on the call side only, so a later clash with the same head variable goes unnoticed.)"""
+    cv, hv = count_vars(call, {}), count_vars(head, {})
+
+    def go(c, h):
+        if c[0] == 'v':
+            return cv.get(c[1], 0) >= 2 and h[0] == 'c' and any(hv.get(v, 0) >= 2 for v in tvars(h))
+        if c[0] == 'c' and h[0] == 'c' and c[1] == h[1] and len(c[2]) == len(h[2]):
+            return any(go(x, y) for x, y in zip(c[2], h[2]))
+        return False
+    return go(call, head)
+
+
 def classify(mode, s, t, expected, observed):
     """Narrow class (input features + symptom) of a disagreement, or None.
     Classes:
@@ -606,6 +630,9 @@ def classify(mode, s, t, expected, observed):
                                             more general than the mgu instance (eq/head: goal asked at top level through
                                             engine.query; body: `w(Vars) :- S = T`, sharing between returned bindings is lost)
       indirect-occurs-check-unbounded-recursion   same input feature; symptom: RecursionError (not a ProbLogError) or no answer in 60 s
+      head-repeated-variable-clash-missed   top-level call against a clause head; no unifier because of a clash; a repeated call variable
+                                            stands opposite a compound head subterm holding a head variable that occurs again in the head
+                                            (call_var_faces_shared_head_var); symptom: the call succeeds
       head-quoted-atom-not-matched          a quoted atom occurs; unifiable; symptom: the call against the clause head fails
       quoted-numeric-atom-equals-number     a quoted atom spelled like a number occurs and the pair would unify if that atom
                                             were the number; symptom: = / head call succeeds, \\= fails"""
@@ -632,6 +659,8 @@ def classify(mode, s, t, expected, observed):
             return "quoted-numeric-atom-equals-number"
         if first_obstacle(s, t_cls) == 'occurs':
             return "%s-indirect-occurs-check-missed" % door
+        if door == 'head' and call_var_faces_shared_head_var(s, t_cls):
+            return "head-repeated-variable-clash-missed"
         return None
     if mode == 'neq':
         return None
